@@ -729,7 +729,7 @@ func main() {
 				} else {
 					add(s.name, []string{r1.name, r2.name}, "2x1")
 				}
-				if !c.Quick() {
+				if !c.Quick() && !(r1.ext || r2.ext) {
 					add(s.name, []string{r1.name, r2.name}, "2x2r")
 				}
 				chains++
